@@ -11,6 +11,8 @@ import (
 	"sort"
 	"strings"
 	"time"
+
+	"golang.org/x/tools/go/ssa"
 )
 
 // replay writes the replay file for a failed obligation and tries to
@@ -61,10 +63,81 @@ func (r *Report) replay(f *failure, dir string) {
 }
 
 type replayer struct {
-	rep  *Report
-	f    *failure
-	base string
-	log  *strings.Builder
+	rep     *Report
+	f       *failure
+	base    string
+	log     *strings.Builder
+	globals []*ssa.Global
+}
+
+// contractGlobals: written package variables of the function's package that
+// the contract (including the spec functions it uses) mentions.
+func (rp *replayer) contractGlobals() []*ssa.Global {
+	fr := rp.f.fr
+	fn, c := fr.Fn, fr.Contract
+	eng := rp.rep.eng
+	names := map[string]bool{}
+	seen := map[string]bool{}
+	var walk func(e CExpr)
+	walk = func(e CExpr) {
+		switch x := e.(type) {
+		case *CIdent:
+			names[x.Name] = true
+		case *CUn:
+			walk(x.X)
+		case *CBin:
+			walk(x.X)
+			walk(x.Y)
+		case *CCond:
+			walk(x.C)
+			walk(x.A)
+			walk(x.B)
+		case *CIndex:
+			walk(x.X)
+			walk(x.I)
+		case *CSlice:
+			walk(x.X)
+			if x.Lo != nil {
+				walk(x.Lo)
+			}
+			if x.Hi != nil {
+				walk(x.Hi)
+			}
+		case *CSel:
+			walk(x.X)
+		case *CQuant:
+			walk(x.Body)
+		case *CCall:
+			for _, a := range x.Args {
+				walk(a)
+			}
+			if sf := eng.specFn(fn.Pkg.Pkg, x.F); sf != nil && !seen[x.F] {
+				seen[x.F] = true
+				walk(sf.Body)
+			}
+		}
+	}
+	for _, cl := range c.Requires {
+		walk(cl.Expr)
+	}
+	for _, cl := range c.Ensures {
+		walk(cl.Expr)
+	}
+	if c.PanicsIf != nil {
+		walk(c.PanicsIf.Expr)
+	}
+	var out []*ssa.Global
+	var ns []string
+	for n := range names {
+		ns = append(ns, n)
+	}
+	sort.Strings(ns)
+	for _, n := range ns {
+		if g, ok := fn.Pkg.Members[n].(*ssa.Global); ok && eng.storedGlobal(g) {
+			out = append(out, g)
+		}
+	}
+	return out
 }
 
 func (rp *replayer) run() {
@@ -78,6 +151,9 @@ func (rp *replayer) run() {
 		return
 	}
 	vc := newVC(eng, fn, c)
+	for g, id := range fr.GlobalIds {
+		vc.globalIds[g] = id // same references for package variables as in the VC
+	}
 	declared := map[string]bool{}
 	for _, cmd := range fr.Cmds[:o.Prefix] {
 		if strings.HasPrefix(cmd, "(declare-fun ") {
@@ -114,6 +190,11 @@ func (rp *replayer) runScope(vc *VC, declared map[string]bool, scope int, base i
 		}
 		roots = append(roots, plan.build(t, fr.Witness[g.Name], 0))
 		wnames = append(wnames, g.Name)
+	}
+	// package variables the contract talks about are part of the input state
+	rp.globals = rp.contractGlobals()
+	for _, g := range rp.globals {
+		roots = append(roots, plan.buildAt(g.Type().(*types.Pointer).Elem(), vc.global(g).S, 0))
 	}
 	tries := 0
 	var block []string
@@ -325,6 +406,14 @@ func (rp *replayer) tryCandidate(roots []*xnode, wnames []string, n int) {
 		decl.WriteString(fmt.Sprintf("\tvar %s %s = %s\n\t_ = %s\n", wn, rend.typeStr(node.t), rend.expr(node), wn))
 		gg.vars[wn] = goVal{code: wn, t: node.t}
 	}
+	for i, g := range rp.globals {
+		node := roots[len(fn.Params)+len(wnames)+i]
+		gt := g.Type().(*types.Pointer).Elem()
+		node.t = gt
+		decl.WriteString(fmt.Sprintf("\t%s = %s\n\told_g_%s := %s\n\t_ = old_g_%s\n", g.Name(), rend.expr(node), g.Name(), g.Name(), g.Name()))
+		gg.vars[g.Name()] = goVal{code: g.Name(), t: gt}
+		gg.oldVars[g.Name()] = goVal{code: "old_g_" + g.Name(), t: gt}
+	}
 	if len(rend.problems) > 0 {
 		rp.log.WriteString("candidate not renderable: " + strings.Join(rend.problems, "; ") + "\n")
 		return
@@ -392,7 +481,13 @@ func (rp *replayer) tryCandidate(roots []*xnode, wnames []string, n int) {
 		expect = "true"
 	}
 	body.WriteString("\texpectPanic := " + expect + "\n")
-	body.WriteString("\tif panicked != nil && !expectPanic {\n\t\tt.Fatalf(\"REPLAY-FAIL: the real code panics on this input: %v\", panicked)\n\t}\n")
+	if len(fr.Havoced) > 0 {
+		// the function calls code outside the model (havoced): a panic may come
+		// from the replay environment (no database, no network), not from the input
+		body.WriteString("\tif panicked != nil && !expectPanic {\n\t\tt.Logf(\"REPLAY-NOTE: panic %v (the function calls code outside the model; inconclusive)\", panicked)\n\t\treturn\n\t}\n")
+	} else {
+		body.WriteString("\tif panicked != nil && !expectPanic {\n\t\tt.Fatalf(\"REPLAY-FAIL: the real code panics on this input: %v\", panicked)\n\t}\n")
+	}
 	body.WriteString("\tif panicked == nil && expectPanic {\n\t\tt.Fatalf(\"REPLAY-FAIL: the real code returns normally where the contract requires a panic\")\n\t}\n")
 	body.WriteString("\tif panicked != nil {\n\t\tt.Log(\"REPLAY-PASS: panicked as the contract allows\")\n\t\treturn\n\t}\n")
 	// postconditions
